@@ -91,6 +91,8 @@ def mutations(rng, tok, key, wrap, enc, pool, pt):
             yield ("header %s absent" % m, set_hdr(tok, m, None, delete=True), key, False)
     if "p2c" in hdr:
         for v in (hdr["p2c"] + 1, hdr["p2c"] - 1, 1000, 1, 0, -1, 32769, 2 ** 31, 2 ** 32 + hdr["p2c"], "32768", None):
+            if v == hdr["p2c"]:
+                continue
             yield ("p2c %r" % (v,), set_hdr(tok, "p2c", v), key, False)
     # algorithm games in the unprotected headers cannot override the protected ones
     yield ("unprotected alg/enc override attempt", dict(tok, unprotected={"alg": "dir", "enc": "A128GCM", "zip": "DEF"}), key,
@@ -144,6 +146,9 @@ def run(ctx):
     for wrap, enc, zip_, aad in combos:
         key = E.key_for(pool, wrap, enc, rng)
         jwe, rcp = templates(wrap, enc, zip_, aad, "protected" if wrap not in E.ECDH + E.PBES2 or rng.random() < 0.5 else "recipient")
+        if wrap in E.PBES2 and rng.random() < 0.8:
+            # keep the iteration count low for most PBES2 tokens (speed); the default is exercised too
+            (jwe.setdefault("protected", {}) if rcp is None else rcp["header"])["p2c"] = 1000
         pt = rng.choice([b"", b"s", rng.randbytes(33), b"abc" * 100])
         a = {"jwe": jwe, "jwk": key, "pt": pt.hex(), "rand": rng.randbytes(200).hex(), "_wrap": wrap, "_enc": enc, "_zip": zip_}
         if rcp is not None:
